@@ -5,7 +5,7 @@ import z3
 
 from pyvc.contract import Case, Contract, LoopSpec, Registry, Shape
 from pyvc.types import BOOL, INT, REAL, STR, Atom, MapT, ObjT, Opt, Record, SeqT, SetT, dd_set
-from pyvc.values import fresh_name
+from pyvc.values import Val, fresh_name
 
 from .common import CALL, ID, RUNNER, TASK, Types, runner_id_ok, spec_new_owner, spec_step_error
 
@@ -86,6 +86,10 @@ def contracts(T: Types, reg: Registry, ctx, pid="C01"):
     def cur_rec(c):
         return z3.Select(c.old("invocation_status_record"), c.arg("invocation_id"))
 
+    def no_edge(c):
+        from .common import spec_edge
+        return z3.Not(spec_edge(T, Opt(T.Status).some(T.Record.get(OREC.val(cur_rec(c)), "status")), c.arg("status")))
+
     def err(c):
         return spec_step_error(T, cur_rec(c), c.arg("status"), c.arg("runner_id"))
 
@@ -111,7 +115,11 @@ def contracts(T: Types, reg: Registry, ctx, pid="C01"):
         frame=["invocation_status_record", "status_index", "locks"],
         cases=[
             Case("unknown-id", when=lambda c: OREC.is_none(cur_rec(c)), raises="KeyError", ensures=unchanged),
-            Case("refused", when=lambda c: z3.And(OREC.is_some(cur_rec(c)), err(c)), raises="InvocationStatusError", ensures=unchanged),
+            Case("refused-no-such-edge", when=lambda c: z3.And(OREC.is_some(cur_rec(c)), err(c), no_edge(c)), raises="InvocationStatusTransitionError",
+                 exact=True, ensures=unchanged,
+                 exc_fields={"from_status": lambda c: Val(Opt(T.Status).some(T.Record.get(OREC.val(cur_rec(c)), "status")), Opt(T.Status))}),
+            Case("refused-not-the-owner", when=lambda c: z3.And(OREC.is_some(cur_rec(c)), err(c), z3.Not(no_edge(c))), raises="InvocationStatusOwnershipError",
+                 exact=True, ensures=unchanged),
             Case("accepted", when=lambda c: z3.And(OREC.is_some(cur_rec(c)), z3.Not(err(c))), ensures=[
                 ("only-this-record-written", lambda c: c.f("invocation_status_record") ==
                  z3.Store(c.old("invocation_status_record"), c.arg("invocation_id"), rec_t.opt.some(c.result))),
